@@ -87,6 +87,7 @@ CmdsOfKind(k, x, n) ==
   CASE k = "CredsCreate"   -> {[C0 EXCEPT !.k = k, !.sp = sp, !.pw = pw] : sp \in Spell, pw \in Pws}
     [] k = "CredsPassword" -> {[C0 EXCEPT !.k = k, !.sp = sp, !.pw = pw] : sp \in Spell, pw \in Pws}
     [] k = "CredsRemove"   -> {[C0 EXCEPT !.k = k, !.sp = sp, !.cf = cf] : sp \in Spell, cf \in Confirms}
+    [] k = "Deliver"       -> {[C0 EXCEPT !.k = k, !.sp = sp, !.body = BodyId(n)] : sp \in Spell \ {""}}
     [] k = "AcctCreate"    -> {[C0 EXCEPT !.k = k, !.sp = sp, !.su = su] : sp \in Spell, su \in SUs}
     [] k = "AcctRemove"    -> {[C0 EXCEPT !.k = k, !.sp = sp, !.cf = cf] : sp \in Spell, cf \in Confirms}
     [] k = "MboxCreate"    -> {[C0 EXCEPT !.k = k, !.sp = sp, !.mb = Path(mb), !.spc = spc]
@@ -134,6 +135,8 @@ PrefixOf(p) ==
     [] p = "tree"   -> <<PAcct(FALSE), PMbox("A.B"), PMbox("a.B")>>
     [] p = "msgs"   -> <<PAcct(FALSE), PMbox("A"), PAdd("INBOX", 3, {}), PAdd("INBOX", 4, {"S"})>>
     [] p = "msgs3"  -> <<PAcct(FALSE), PMbox("A"), PAdd("INBOX", 3, {}), PAdd("INBOX", 4, {"S"}), PAdd("A", 5, {"F"})>>
+    [] p = "two"    -> <<PAcct(FALSE), [PAcct(FALSE) EXCEPT !.sp = "b"], PMbox("A"), [PMbox("A") EXCEPT !.sp = "b"],
+                         PAdd("A", 5, {}), [PAdd("A", 6, {}) EXCEPT !.sp = "b"], [PAdd("INBOX", 7, {"S"}) EXCEPT !.sp = "b"]>>
     [] p = "treemsgs" -> <<PAcct(FALSE), PMbox("A.B"), PMbox("a.B"), PAdd("A.B", 4, {}), PAdd("a.B", 5, {})>>
 
 RECURSIVE Run(_, _, _)
@@ -149,7 +152,7 @@ Init ==
   /\ step = Len(pre)
   /\ seen = SeenOf(pre, 1, Derive(EmptySnap))
   /\ used = {}
-  /\ obs = [viol |-> {}]
+  /\ obs = [viol |-> {}, diag |-> {}]
   /\ phase = "run"
   /\ hist = IF Gen THEN pre ELSE <<>>
 
@@ -159,8 +162,8 @@ Do(c) ==
   /\ step' = step + 1
   /\ seen' = seen \cup Keys(r.s)
   /\ used' = used
-  /\ obs' = [viol |-> obs.viol \cup StepViol(c, r.res, r.ez, s, r.s) \cup StateViol(r.s)
-                      \cup (IF UidReused(seen, r.s) THEN {"UidReused"} ELSE {})]
+  /\ obs' = [obs EXCEPT !.viol = @ \cup StepViol(c, r.res, r.ez, s, r.s) \cup StateViol(r.s)
+                                   \cup (IF UidReused(seen, r.s) THEN {"UidReused"} ELSE {})]
   /\ hist' = H(c)
   /\ UNCHANGED phase
 
